@@ -1,11 +1,15 @@
 // ctl_queue.cpp — controlled-schedule scenarios for cocls::queue<int> (engine tq, C09) and limited_queue<int> (engine tlq, C10).
-// Real threads, one runnable at a time (ctl.h).  Yield points: the guarded hooks COCLS_VERIF_POINT("q_lock") before every lock
-// acquisition in queue.h and COCLS_VERIF_POINT("q_res") between unlock and promise resolution, plus the scenario's own
-// ctl::block_until("q_wait") where a thread waits for the future it was given.  Hook points that belong to the promise/future
-// cell (claim, resolve, dtor, ready ... — the subject of C01/C02) are not yield points here: the filter below lets only q_* through,
-// so a critical section of the queue is one step, exactly as in the Coq model (QueueDefs.tstep).
+// Real threads, one runnable at a time (ctl.h).  The queue is instantiated with its own Lock template argument set to
+// ctl_lock: EVERY acquisition of the queue lock is a scheduling point ("q_lock", 70; the thread is disabled while the lock
+// is held by somebody else) and EVERY release is followed by one ("q_res", 71), wherever the library code takes or drops the
+// lock — the critical sections the Coq model (QueueDefs.tstep) talks about are the lock()/unlock() pairs of the real code,
+// not positions of hook macros.  The library's own COCLS_VERIF_POINT hooks (q_lock/q_res in queue.h, claim/resolve/dtor ...
+// in the promise/future cell, the subject of C01/C02) are muted for these threads.  The scenario adds "q_wait" (72) where a
+// thread waits for the future it was given and "q_destroy" (73) for the thread that destroys the queue.
 // case:  [0 limit] (tlq)   1 v1 v2 ..  producer thread   2 n  consumer thread (n pops, one after the other)
-//        3 n e  thread calling unblock_pop(e) n times      9 c1 c2 ..  schedule
+//        3 n e  thread calling unblock_pop(e) n times      4 n  thread calling size() n times
+//        5  thread that destroys the queue once nobody else can take a step     6 n e  unblock_push(e) n times (tlq)
+//        9 c1 c2 ..  schedule
 // output: trace lines "tid point", "777 stuck.." on deadlock, one result line per thread, "9 size drained.." (what is left, popped at the end)
 // The harness contains no expected values.
 #define VH_DEFINE_NEW
@@ -18,14 +22,35 @@ struct test_exc {
     long code;
 };
 
-static void q_point(const char *id) {
-    if (id[0] == 'q' && id[1] == '_') ctl::Controller::hook_point(id);
-}
-static void only_queue_points() { cocls::verif::get_hooks().point = &q_point; }
+// the Lock template argument of the queue under test
+struct ctl_lock {
+    bool held = false;
+    void lock() {
+        ctl::block_until("q_lock", [&] { return !held; });
+        held = true;
+    }
+    bool try_lock() {
+        if (held) return false;
+        held = true;
+        return true;
+    }
+    void unlock() {
+        held = false;
+        ctl::point("q_res");
+    }
+};
 
-struct lq_open : limited_queue<int> {
-    using limited_queue<int>::limited_queue;
-    using queue<int>::unblock_pop;   // protected base of limited_queue
+static void no_point(const char *) {}
+static void only_queue_points() {
+    cocls::verif::get_hooks().point = &no_point;
+    cocls::verif::get_hooks().block = nullptr;
+}
+
+using tq_t = queue<int, primitives::std_queue, primitives::std_queue, ctl_lock>;
+using tlq_base = limited_queue<int, primitives::std_queue, primitives::std_queue, primitives::std_queue, ctl_lock>;
+struct lq_open : tlq_base {
+    using tlq_base::tlq_base;
+    using tq_t::unblock_pop;   // protected base of limited_queue
 };
 
 template <typename F>
@@ -48,7 +73,7 @@ static long outcome(F &f) {
 
 template <bool Lim>
 static void run_case(const vh::Case &cs) {
-    using Q = std::conditional_t<Lim, lq_open, queue<int>>;
+    using Q = std::conditional_t<Lim, lq_open, tq_t>;
     struct Decl {
         int role;
         std::vector<long> a;
@@ -58,10 +83,13 @@ static void run_case(const vh::Case &cs) {
     long limit = -1;
     for (auto &op : cs.ops) {
         if (op.empty()) continue;
-        if (op[0] == 0 && op.size() == 2 && limit < 0) limit = op[1];
+        if (op[0] == 0 && op.size() == 2 && limit == -1) limit = op[1] < 1 ? -2 : op[1];
         else if (op[0] == 1) decl.push_back({1, std::vector<long>(op.begin() + 1, op.end())});
         else if (op[0] == 2 && op.size() == 2 && op[1] >= 0) decl.push_back({2, {op[1]}});
         else if (op[0] == 3 && op.size() == 3 && op[1] >= 0) decl.push_back({3, {op[1], op[2]}});
+        else if (op[0] == 4 && op.size() == 2 && op[1] >= 0) decl.push_back({4, {op[1]}});
+        else if (op[0] == 5 && op.size() == 1) decl.push_back({5, {}});
+        else if (op[0] == 6 && op.size() == 3 && op[1] >= 0 && Lim) decl.push_back({6, {op[1], op[2]}});
         else if (op[0] == 9) sched.insert(sched.end(), op.begin() + 1, op.end());
     }
     if (Lim && limit < 1) {
@@ -72,20 +100,35 @@ static void run_case(const vh::Case &cs) {
     Q *q;
     if constexpr (Lim) q = new lq_open((std::size_t)limit);
     else q = new Q();
+    bool destroyed = false;
     std::vector<std::vector<long>> res(n);
     std::vector<std::function<void()>> fns;
+    ctl::Controller c;
+    // the destroyer may start only when no other thread can take a step: every other thread has finished or waits for a
+    // future that is not ready (evaluated by the controller, which holds its lock while it looks at the thread table)
+    auto quiescent = [&](int self) {
+        if (destroyed) return false;
+        for (int j = 0; j < n; j++) {
+            if (j == self || decl[j].role == 5) continue;
+            ctl::Thread &t = *c.ths[j];
+            if (t.state == ctl::Finished) continue;
+            if (t.state == ctl::Blocked && !t.pred(t.ctx)) continue;
+            return false;
+        }
+        return true;
+    };
     for (int i = 0; i < n; i++) {
         Decl d = decl[i];
         if (d.role == 1) {
             fns.push_back([&, i, d] {
                 only_queue_points();
                 for (long v : d.a) {
+                    if (destroyed) break;
                     if constexpr (Lim) {
                         auto *f = new future<void>(q->push((int)v));
-                        bool imm = f->ready();
                         ctl::block_until("q_wait", [&] { return f->ready(); });
-                        long o = outcome(*f);
-                        res[i].push_back(imm ? 0 : (o == 0 ? 2 : o));
+                        long o = outcome(*f);   // the caller cannot tell "admitted at once" from "was blocked for a while"
+                        res[i].push_back(o == 0 ? 0 : (o == -1000000 ? 99 : 100 - o));
                         delete f;
                     } else {
                         bool r;
@@ -102,23 +145,53 @@ static void run_case(const vh::Case &cs) {
             fns.push_back([&, i, d] {
                 only_queue_points();
                 for (long k = 0; k < d.a[0]; k++) {
+                    if (destroyed) break;
                     auto *f = new future<int>(q->pop());
                     ctl::block_until("q_wait", [&] { return f->ready(); });
                     res[i].push_back(outcome(*f));
                     delete f;
                 }
             });
-        } else {
+        } else if (d.role == 3) {
             fns.push_back([&, i, d] {
                 only_queue_points();
                 for (long k = 0; k < d.a[0]; k++) {
+                    if (destroyed) break;
                     auto sp = q->unblock_pop(std::make_exception_ptr(test_exc{d.a[1]}));
                     res[i].push_back((bool)sp);
                 }
             });
+        } else if (d.role == 4) {
+            fns.push_back([&, i, d] {
+                only_queue_points();
+                for (long k = 0; k < d.a[0]; k++) {
+                    if (destroyed) break;
+                    res[i].push_back((long)q->size());
+                }
+            });
+        } else if (d.role == 5) {
+            res[i].push_back(0);
+            fns.push_back([&, i] {
+                only_queue_points();
+                ctl::block_until("q_destroy", [&] { return quiescent(i); });
+                delete q;
+                q = nullptr;
+                destroyed = true;
+                res[i][0] = 1;
+            });
+        } else {
+            fns.push_back([&, i, d] {
+                only_queue_points();
+                for (long k = 0; k < d.a[0]; k++) {
+                    if (destroyed) break;
+                    if constexpr (Lim) {
+                        auto sp = q->unblock_push(std::make_exception_ptr(test_exc{d.a[1]}));
+                        res[i].push_back((bool)sp);
+                    }
+                }
+            });
         }
     }
-    ctl::Controller c;
     c.run(std::move(fns), sched);
     c.print_trace();
     for (int i = 0; i < n; i++) {
@@ -127,17 +200,15 @@ static void run_case(const vh::Case &cs) {
         vh::print_obs(o);
     }
     // what is left in the queue (items, then the items of blocked pushes as pops make room), popped from this thread
-    std::vector<long> fin{9, (long)q->size()};
-    if (!c.deadlock || true) {
-        std::vector<std::unique_ptr<future<int>>> keep;
-        for (int guard = 0; guard < 1000 && q->size() > 0; guard++) {
-            keep.emplace_back(new future<int>(q->pop()));
-            fin.push_back(outcome(*keep.back()));
-        }
-        vh::print_obs(fin);
-        ctl::finish_case_or_restart(c);
-        keep.clear();
+    std::vector<long> fin{9, q ? (long)q->size() : 0};
+    std::vector<std::unique_ptr<future<int>>> keep;
+    for (int guard = 0; q && guard < 1000 && q->size() > 0; guard++) {
+        keep.emplace_back(new future<int>(q->pop()));
+        fin.push_back(outcome(*keep.back()));
     }
+    vh::print_obs(fin);
+    ctl::finish_case_or_restart(c);
+    keep.clear();
     delete q;
 }
 
